@@ -266,21 +266,29 @@ OutFast(h, sp, d, dp, pr) ==
 
 ----------------------------------------------------------------------------
 (* Traffic from outside to the outside address: via MAC v, from r:rp, to port fp. *)
+\* outside ports worth probing: the configured ones and the ones in use (FakeCands: a constant superset of the
+\* ports the allocator can hand out after at most two collisions, so that TLC can enumerate the quantifier)
+FakeCands == UNION {{s, s + 1, s + 2} : s \in {x \in SPorts : x >= LowLimit}}
+             \cup UNION {{r, r + 1, r + 2, DynLo, DynLo + 1} : r \in Rnds}
+ProbePorts == InPorts \cup {m.fake : m \in maps}
 InArgs(v, r, rp, fp, pr, c) == [via |-> v, r |-> r, rp |-> rp, fp |-> fp, pr |-> pr, case |-> c]
 BKey(v, r, rp, fp, pr) == [via |-> v, r |-> r, rp |-> rp, fp |-> fp, pr |-> pr]
 
 InNoGw(v, r, rp, fp, pr) ==
+  /\ fp \in ProbePorts
   /\ st = "arping" /\ ~Due
   /\ UNCHANGED <<st, gw, maps, used, blocked, tph, timer>>
   /\ Log("In", InArgs(v, r, rp, fp, pr, "nogw"), 1, <<>>, {}, {GwQuery}, 0, 0, 0)
 
 \* a drop entry (exact match, so it outranks every wildcarded entry) eats the frame
 InBlocked(v, r, rp, fp, pr) ==
+  /\ fp \in ProbePorts
   /\ st = "ready" /\ ~Due /\ BKey(v, r, rp, fp, pr) \in blocked
   /\ UNCHANGED <<st, gw, maps, used, blocked, tph, timer>>
   /\ Log("In", InArgs(v, r, rp, fp, pr, "blocked"), 0, <<>>, {}, {}, 0, 0, 0)
 
 InFast(v, r, rp, fp, pr) ==
+  /\ fp \in ProbePorts
   /\ st = "ready" /\ ~Due /\ BKey(v, r, rp, fp, pr) \notin blocked
   /\ \E m \in FindIn(v, r, rp, fp, pr) :
        /\ FlowsLive(m) /\ m.fake # 0
@@ -289,6 +297,7 @@ InFast(v, r, rp, fp, pr) ==
        /\ Log("In", InArgs(v, r, rp, fp, pr, "fast"), 0, <<>>, {Em(HostPort[m.h], Delivered(m))}, {}, 0, 0, 0)
 
 InReinstall(v, r, rp, fp, pr) ==
+  /\ fp \in ProbePorts
   /\ st = "ready" /\ ~Due /\ BKey(v, r, rp, fp, pr) \notin blocked
   /\ \E m \in FindIn(v, r, rp, fp, pr) :
        /\ ~FlowsLive(m) /\ m.fake # 0
@@ -299,6 +308,7 @@ InReinstall(v, r, rp, fp, pr) ==
 
 \* nobody inside opened this: "Ignore for a while" - an exact-match drop entry (idle 1 s, hard 10 s)
 InUnsolicited(v, r, rp, fp, pr) ==
+  /\ fp \in ProbePorts
   /\ st = "ready" /\ ~Due /\ BKey(v, r, rp, fp, pr) \notin blocked
   /\ FindIn(v, r, rp, fp, pr) = {}
   /\ blocked' = blocked \cup {BKey(v, r, rp, fp, pr)}
@@ -364,15 +374,9 @@ OutStep == \E h \in Hosts, sp \in SPorts, d \in Dsts, dp \in DPorts, pr \in Prot
              \/ \E rnd \in (IF sp < LowLimit THEN Rnds ELSE {0}) :
                   \/ OutNew(h, sp, d, dp, pr, rnd) \/ OutNoPort(h, sp, d, dp, pr, rnd)
                   \/ OutNoPortDefect(h, sp, d, dp, pr, rnd)
-\* outside ports worth probing: the configured ones and the ones in use (FakeCands: a constant superset of the
-\* ports the allocator can hand out after at most two collisions, so that TLC can enumerate the quantifier)
-FakeCands == UNION {{s, s + 1, s + 2} : s \in {x \in SPorts : x >= LowLimit}}
-             \cup UNION {{r, r + 1, r + 2, DynLo, DynLo + 1} : r \in Rnds}
-ProbePorts == InPorts \cup {m.fake : m \in maps}
 InStep == \E v \in Vias, r \in Remotes \cup {"dns"}, rp \in DPorts, fp \in InPorts \cup FakeCands, pr \in Protos :
-            /\ fp \in ProbePorts
-            /\ \/ InNoGw(v, r, rp, fp, pr) \/ InBlocked(v, r, rp, fp, pr) \/ InFast(v, r, rp, fp, pr)
-               \/ InReinstall(v, r, rp, fp, pr) \/ InUnsolicited(v, r, rp, fp, pr)
+            \/ InNoGw(v, r, rp, fp, pr) \/ InBlocked(v, r, rp, fp, pr) \/ InFast(v, r, rp, fp, pr)
+            \/ InReinstall(v, r, rp, fp, pr) \/ InUnsolicited(v, r, rp, fp, pr)
 ArpStep == \/ \E p \in {OutPort, 1}, spa \in {"gwip", "r1"}, sha \in GwMacs : ArpReply(p, spa, sha)
            \/ \E tpa \in {"out", "gwip"} : ArpRequest(OutPort, "gw", tpa)
            \/ \E h \in Hosts : \E tpa \in ({"in", "out", "r1"} \cup Locals) \ {h} : ArpRequest(HostPort[h], h, tpa)
